@@ -6,6 +6,7 @@ RFC 8974 extension bytes) instead of the token, a comparison that reads the othe
 Calls without any byte pointer next to the length (allocators, logging, size helpers) are not judged."""
 import collections
 from core.prog import strip, walk, ap, short
+from core.prog import const_int as const_int_
 
 STR = ('coap_bin_const_t', 'coap_binary_t', 'coap_string_t', 'coap_str_const_t')
 BYTEPTR = ('uint8_t *', 'unsigned char *', 'char *', 'void *', 'coap_opt_t *')
@@ -65,4 +66,116 @@ def run(run, P, only=None):
                     run.violation('R-PAIR-ARGS', f['name'], ev['loc'], 'length-with-foreign-bytes:%s' % (t.get('fn') or 'indirect'),
                                   '%s is given %s but not %s: the bytes next to it (%s) are something else, so the callee measures foreign bytes with this length' %
                                   (t.get('fn') or 'the callee', short(a0)[:50], short(a0)[:50].replace('length', 's'), short(nb[0])[:40]), [])
-    run.require(n >= (100 if not only else 3) or run.fixture_mode or run.cfg != 'base', 'R-PAIR-ARGS: only %d calls that pass a string record\'s length found' % n)
+    run.require_count(n >= (100 if not only else 3) or run.fixture_mode or run.cfg != 'base', 'R-PAIR-ARGS: only %d calls that pass a string record\'s length found' % n)
+
+
+def run_token_identity(run, P):
+    """R-PAIR-ARGS (token identity): a message carries its token twice -- `actual_token` (the token) and the encoded form at `token` with
+    `e_token_length` (RFC 8974 extension bytes in front, and counted).  Which exchange a message belongs to is decided on the token: a
+    comparison that puts `->e_token_length` next to the `.length` of a string record, or memcmp()s a string record's bytes with the PDU's
+    raw `token` pointer, is right for tokens of 0..12 bytes and never matches an extended one -- the observer that registered with a
+    16-byte token is never found again: it cannot deregister, cannot be cancelled by a Reset, and a re-registration duplicates it."""
+    run.rule('R-PAIR-ARGS')
+    n = 0
+
+    def is_strlen(x):
+        x = strip(x)
+        return isinstance(x, dict) and x.get('k') == 'mem' and x.get('f') == 'length' and x.get('rec') in STR
+
+    def is_elen(x):
+        x = strip(x)
+        return isinstance(x, dict) and x.get('k') == 'mem' and x.get('f') == 'e_token_length'
+
+    def is_strbytes(x):
+        x = strip(x)
+        return isinstance(x, dict) and x.get('k') == 'mem' and x.get('f') == 's' and x.get('rec') in STR
+
+    def is_rawtoken(x):
+        x = strip(x)
+        return isinstance(x, dict) and x.get('k') == 'mem' and x.get('f') == 'token' and x.get('rec') == 'coap_pdu_t'
+    seen = set()
+    for f in sorted(P.lib_funcs(), key=lambda f: f['name']):
+        nodes = []
+        for b, ev in P.events(f):
+            nodes.append((ev['loc'], ev['e']))
+        for b in f['blocks']:
+            c = (b.get('term') or {}).get('cond')
+            if c is not None:
+                nodes.append(((b['term'].get('loc') or f['loc']), c))
+        for loc, t in nodes:
+            for x in walk(t):
+                if not isinstance(x, dict):
+                    continue
+                bad = None
+                if x.get('k') == 'bin' and x.get('op') in ('==', '!='):
+                    sides = (x['l'], x['r'])
+                    if any(is_strlen(s_) for s_ in sides):
+                        n += 1
+                        if any(is_elen(s_) for s_ in sides):
+                            bad = 'the length of a byte string is compared with e_token_length, the size of the ENCODED token'
+                if x.get('k') == 'call' and x.get('fn') in ('memcmp', 'coap_binary_equal') and len(x.get('a') or ()) >= 2:
+                    a0, a1 = x['a'][0], x['a'][1]
+                    if x['fn'] == 'coap_binary_equal':
+                        n += 1
+                    if (is_strbytes(a0) and is_rawtoken(a1)) or (is_strbytes(a1) and is_rawtoken(a0)):
+                        bad = 'a byte string is compared with the bytes at pdu->token, where the extension bytes of an extended token come first'
+                if bad and (loc, short(x)) not in seen:
+                    seen.add((loc, short(x)))
+                    run.oblige('R-PAIR-ARGS', False, '%s:token-compared-as-token' % f['name'])
+                    run.violation('R-PAIR-ARGS', f['name'], loc, 'encoded-token-compared-with-token',
+                                  '`%s`: %s -- equal for tokens of up to 12 bytes, never for an RFC 8974 extended token: the look-up by token fails for exactly those '
+                                  'exchanges' % (short(x)[:70], bad), [])
+    # the empty token is a token: a function that decides identity with coap_binary_equal() on a token parameter has no condition on that
+    # parameter's length alone (RFC 7252 5.3.1: a zero-length token is legal and is what many clients use for their only outstanding request)
+    nt = 0
+    for f in sorted(P.lib_funcs(), key=lambda f: f['name']):
+        tps = set('v%s' % p['id'] for p in f.get('params') or () if p.get('prec') in STR)
+        if not tps:
+            continue
+        deciders = set()
+        conds = []
+        # coap_binary_equal() is a macro: its expansion is recognised by the macro stack of the events / branch terms
+        for b, ev in P.events(f):
+            if any('coap_binary_equal' in m for m in (ev.get('mac') or ())):
+                for x in walk(ev['e']):
+                    if isinstance(x, dict) and x.get('k') == 'var' and ap(x) in tps:
+                        deciders.add(ap(x))
+            for x in walk(ev['e']):
+                if isinstance(x, dict) and x.get('k') == 'call' and x.get('fn') == 'coap_binary_equal':
+                    for a in x.get('a') or ():
+                        if ap(strip(a)) in tps:
+                            deciders.add(ap(strip(a)))
+        for b in f['blocks']:
+            c = (b.get('term') or {}).get('cond')
+            if c is not None:
+                if any('coap_binary_equal' in m for m in ((b.get('term') or {}).get('mac') or ())) or 'coap_binary_equal' in short(c):
+                    for x in walk(c):
+                        if isinstance(x, dict) and x.get('k') == 'var' and ap(x) in tps:
+                            deciders.add(ap(x))
+                else:
+                    conds.append((b, c))
+        if not deciders:
+            continue
+        nt += 1
+        for b, c in conds:
+            c0 = strip(c)
+            neg = False
+            while isinstance(c0, dict) and c0.get('k') == 'un' and c0.get('op') == '!':
+                c0 = strip(c0['e'])
+                neg = True
+            tested = None
+            if isinstance(c0, dict) and c0.get('k') == 'mem' and c0.get('f') == 'length' and ap(strip(c0.get('b'))) in deciders:
+                tested = c0
+            if isinstance(c0, dict) and c0.get('k') == 'bin' and c0.get('op') in ('==', '!=', '>', '<', '>=', '<='):
+                for a_, b_ in ((c0['l'], c0['r']), (c0['r'], c0['l'])):
+                    a0 = strip(a_)
+                    if isinstance(a0, dict) and a0.get('k') == 'mem' and a0.get('f') == 'length' and ap(strip(a0.get('b'))) in deciders and const_int_(b_) is not None:
+                        tested = a0
+            run.oblige('R-PAIR-ARGS', tested is None, '%s:no-special-case-on-token-length' % f['name'])
+            if tested is not None:
+                run.violation('R-PAIR-ARGS', f['name'], (b['term'].get('loc') or f['loc']), 'special-case-on-token-length',
+                              '%s() decides which exchange a token names with coap_binary_equal(), and additionally branches on `%s` alone: the zero-length token is a '
+                              'legal token like any other -- an exchange that uses it is not found (not cancelled, not matched)' % (f['name'], short(c)[:50]), [])
+    run.instance('R-PAIR-ARGS', 'token identity decided on actual_token: %d comparisons of string lengths / coap_binary_equal() calls looked at, %d functions that match by token parameter' % (n, nt))
+    run.oblige('R-PAIR-ARGS', True, 'token-identity-sites')
+    run.require_count(n >= 10 or run.fixture_mode or run.cfg != 'base', 'R-PAIR-ARGS(token identity): fewer than 10 string-length comparisons found')
